@@ -147,6 +147,38 @@ pub fn gen_scenario(rng: &mut Rng) -> Case {
     Case { w, h: 24, hz, ops, small: false }
 }
 
+/// bottom alignment around the blank rows of a frame that has shrunk (F35, F36): a rate-limited target with its burst used up, a
+/// head bar that finishes with a tall rendering and then shrinks (forced draws), other bars added or changed afterwards whose draws
+/// the limiter skips, then drops in some order, and more draws; no text afterwards, so that the final-rendering oracle judges the end
+pub fn gen_bottom_scenario(rng: &mut Rng) -> Case {
+    let w = *rng.pick(&[6u16, 10, 14]);
+    let hz = *rng.pick(&[1u8, 1, 20]);
+    let mut ops = vec![MOp::Align(true)];
+    let nb = rng.range(1, 3) as usize;
+    for k in 0..nb { ops.push(MOp::Add { loc: 0, arg: 0, len: Some(5), tpl: *rng.pick(&[1usize, 2, 3]), prefix: format!("{}", (b'A' + k as u8) as char), fin: Fin::Leave }); }
+    for _ in 0..rng.range(18, 24) { ops.push(MOp::Bar(0, BOp::Tick)); }
+    let mut alive = vec![true; nb];
+    for k in 0..nb { if k == 0 || rng.chance(1, 2) {
+        ops.push(MOp::Bar(k, BOp::Finish(match rng.below(3) { 0 => Fin::Msg(short(rng, 2 * w, true)), 1 => Fin::AbandonMsg(short(rng, 2 * w, true)), _ => Fin::Leave })));
+        if rng.chance(2, 3) { ops.push(MOp::Bar(k, BOp::Msg(if rng.chance(1, 2) { String::new() } else { short(rng, w / 2, false) }))); } } }
+    // bars that join or change after the last painted frame: the limiter skips their draws
+    let mut n = nb;
+    for _ in 0..rng.below(3) {
+        let loc = rng.below(5) as u8;
+        let arg = if loc >= 3 { rng.below(nb as u64) as usize } else { rng.below(3) as usize };
+        ops.push(MOp::Add { loc, arg, len: Some(10), tpl: *rng.pick(&[1usize, 3]), prefix: format!("{}", (b'A' + n as u8) as char), fin: Fin::Abandon });
+        alive.push(true);
+        if rng.chance(2, 3) { ops.push(MOp::Bar(n, BOp::Msg(short(rng, 2 * w, true)))); }
+        n += 1;
+    }
+    if rng.chance(1, 4) { ops.push(MOp::Adv(*rng.pick(&[1_000_000u64, 1_000_000_000]))); }
+    let mut ks: Vec<usize> = (0..n).collect();
+    if rng.chance(1, 3) { ks.reverse(); }
+    for k in ks { if rng.chance(5, 6) { alive[k] = false; ops.push(MOp::Bar(k, BOp::Drop)); if rng.chance(1, 4) { let j = rng.below(n as u64) as usize; if alive[j] { ops.push(MOp::Bar(j, BOp::Tick)); } } } }
+    for k in 0..n { if alive[k] { ops.push(MOp::Bar(k, BOp::Drop)); } }
+    Case { w, h: 24, hz, ops, small: false }
+}
+
 pub fn encode(c: &Case) -> String {
     let mut s = format!("MULTI FX={} {} {} {} {}", crate::common::fx("draw"), c.w, c.h, c.hz, T0);
     for op in &c.ops { s.push_str(" ; "); s.push_str(&op.enc()); }
@@ -413,7 +445,7 @@ pub fn run(seed: u64, tier: &str, out: &mut Out, bottom: bool) {
     let mut rng = Rng::new(seed);
     let n = if tier == "thorough" { 200_000 } else { 3_000 };
     for _ in 0..n {
-        let c = if !bottom && rng.chance(1, 4) { gen_scenario(&mut rng) } else { gen_case(&mut rng, bottom) };
+        let c = if !bottom && rng.chance(1, 4) { gen_scenario(&mut rng) } else if bottom && rng.chance(1, 5) { gen_bottom_scenario(&mut rng) } else { gen_case(&mut rng, bottom) };
         let case = encode(&c);
         let (obs, verdict) = run_case(&c);
         out.emit(&case, &format!("{obs} ORACLE {verdict}"));
